@@ -65,6 +65,13 @@ CHECKS = {
              "positions must be instances of fragments.<Fragment>, which must validate the same sub-payload and exist whatever else uses the fragment; 3-6 permutations "
              "and file splits of the definitions must all generate and import; every @mixin class must be a base of exactly the classes generated for its node.",
         note=GEN_NOTE, design="4/C08"),
+    "C09": dict(
+        category="exploration",
+        technique="runtime monitoring: differential observation of four generated packages (flag combinations) against an independent closure; per-class source-segment comparison; identical-call request/return comparison; icontract postcondition on the real _get_dependencies_of_type evaluated in situ",
+        text="Four packages per seeded case (include_all_inputs x include_all_enums) are generated and imported; the class sets of input_types.py / enums.py must equal "
+             "an independently computed closure (inputs through variables transitively; enums through variables, retained inputs, result fields, fragments), each retained "
+             "class must be textually identical to its unpruned counterpart, and identical calls must send identical requests and return identical values in all four.",
+        note=GEN_NOTE, design="4/C09"),
     "C10": dict(
         category="exploration",
         technique="runtime monitoring: differential observation of real generator subprocesses under varied PYTHONHASHSEED, file creation orders/mtimes and pre-existing target; sha256 comparison of every produced file",
